@@ -451,6 +451,30 @@ def partial_end_trees(rng, k0):
     return out
 
 
+def unsorted_listing_trees(rng, k0):
+    """Directed trees every run contains whatever the seed: the user placeholder is a directory level ABOVE the time fields, so
+    the files are listed (find(sort=False)) in another order than their start times; the file that covers t is listed AFTER
+    a later-starting short file whose start is nearer to t than both ends of the covering file."""
+    out = []
+    for j, kind in enumerate(["sat", "sat/Y/M"]):
+        tree = gen_tree(rng, k0 + j, force={"kind": kind, "res": "hour", "ends": True, "sat": True})
+        day0 = (tree["centre"] // DAY) * DAY
+        spans = [(day0, day0 + 9 * HOUR, "x1"),                    # covers 00:00-09:00, listed last
+                 (day0 + 6 * HOUR, day0 + 7 * HOUR, "metop"),      # listed first, starts after t
+                 (day0 + 20 * HOUR, day0 + 21 * HOUR, "noaa")]
+        files, names = [], set()
+        for t0, t1, sat in spans:
+            name = own_render(tree["tokens"], of_us(t0), of_us(t1), sat)
+            if name not in names:
+                names.add(name)
+                files.append({"name": name, "t0": t0, "t1": t1, "sat": sat})
+        tree["files"], tree["vanished"], tree["fixed_sat"] = files, [], None
+        tree["queries"] = [{"label": "covering-listed-later", "t": day0 + h * HOUR, "filters": None, "xnames": [], "xtimes": [], "as_str": False}
+                           for h in (4, 5, 3)]
+        out.append(tree)
+    return out
+
+
 EDGE_TEMPLATES = [   # (layout, resolution of the names, a time B that starts a directory of the finest level)
     ("Y/M/D", "hour", (2018, 3, 2, 0, 0)), ("Y/M/D", "minute", (2020, 3, 1, 0, 0)), ("Y/M/D/H", "minute", (2019, 1, 1, 0, 0)),
     ("Y/J", "hour", (2019, 1, 1, 0, 0)), ("Y/M", "hour", (2018, 3, 1, 0, 0)), ("y/M", "hour", (2024, 3, 1, 0, 0)),
@@ -1269,6 +1293,7 @@ def run(ctx):
             trees.append(t)
     trees += edge_trees(drng, nt + 100)
     trees += partial_end_trees(drng, nt + 300)
+    trees += unsorted_listing_trees(drng, nt + 320)
     # the second user placeholder: trees with {sat} AND {ver}, filters over both (a stream of its own, generated after
     # everything else: the older families are exactly what they were), and the directed filter trees
     vrng = _random.Random(f"C16-two-placeholders:{ctx.seed}")
